@@ -29,8 +29,10 @@ MANIFEST_PART = {
             "constructor, dnfImplies/dnfEqual/dnfExpandImplies sound, dnfIsFalse complete; for and/or/not of "
             "the CURRENT code: refuted by witness (multi-literal cancel-negation), proved to weaken only and "
             "to be exact when no multi-literal cancellation occurs; full equivalences proved for the "
-            "single-literal rule.  Tie: exhaustive level sets over <=3 (quick) / <=4 (thorough) atoms to "
-            "depth 3 + random formulas/DNFs over 10 atoms, implementation vs extracted model (structural) "
+            "single-literal rule.  Tie: exhaustive level sets (all values reachable by formulas of depth <= 3, "
+            "deduplicated by structure) over 2 and 3 atoms (quick), plus 4 atoms in the thorough tier (depth 2 "
+            "complete, depth 3 sampled up to VERIF_DNF_CAP operations; the evidence says which levels were "
+            "sampled) + random formulas/DNFs over 10 atoms, implementation vs extracted model (structural) "
             "and vs python truth tables.",
     "not_modelled": "storage of DNF values (alloc/copy/free, shared static true/false), int overflow of "
                     "-INT_MIN, dnfPrint/dnfFormatter text, dnfAlias/dnfFollow (marked broken in the source), "
@@ -68,7 +70,7 @@ def fmt(d):
     r = _fmt_cache.get(d)
     if r is None:
         r = "{" + "".join(("N" if c is None else ",".join(map(str, c))) + ";" for c in d) + "}"
-        if len(_fmt_cache) < 2000000:
+        if len(_fmt_cache) < 300000:
             _fmt_cache[d] = r
     return r
 
@@ -80,7 +82,7 @@ def parse(s):
     r = _parse_cache.get(s)
     if r is None:
         r = _parse(s)
-        if len(_parse_cache) < 2000000:
+        if len(_parse_cache) < 300000:
             _parse_cache[s] = r
     return r
 
@@ -157,7 +159,7 @@ class TT:
         for c in d:
             if c is not None:
                 m |= self.conj(c)
-        if len(self.cache) < 1000000:
+        if len(self.cache) < 300000:
             self.cache[d] = m
         return m
 
@@ -197,7 +199,7 @@ def wf_dnf(d):
     r = _wf_cache.get(d)
     if r is None:
         r = all(c is not None and wf_conj(c) for c in d)
-        if len(_wf_cache) < 2000000:
+        if len(_wf_cache) < 300000:
             _wf_cache[d] = r
     return r
 
@@ -323,7 +325,7 @@ def oracle(o, cres, mfields, tts):
             if op in ("and", "or", "not", "form", "ormerge") and mfields and len(mfields) == 3:
                 # known finding only if impl == model of the code as it is, and the restricted rule is right
                 try:
-                    known = (mfields[0] == cres) and T.dnf(parse(mfields[1])) == exp
+                    known = (mfields[0] == cres) and mfields[0] != mfields[1] and T.dnf(parse(mfields[1])) == exp
                 except ValueError:
                     known = False
             weaker = (exp & ~got) == 0
@@ -590,6 +592,14 @@ class Campaign:
         self.reported = 0
         self.samples = []
         self.maxsize = 0
+        self.col = None          # which model variant the implementation follows: 0 = rule as in /repo HEAD
+                                 # (multi-literal cancel), 1 = single-literal rule (the repair)
+
+    def variant(self):
+        if self.col is None:
+            _, out, _ = run_lines1(harness(), ["or {-1,-2;} {1,2;}", "or {3;1,2;} {-1,-2,4;}"], timeout=60)
+            self.col = 0 if (out and out[0] == "{;}") else 1
+        return self.col
 
     # -- one batch: run impl + model, diff, oracle
     def batch(self, ops, tag, want_results=False):
@@ -614,8 +624,12 @@ class Campaign:
         mex.shutdown()
         if len(mout) != len(lines):
             raise RuntimeError("dnf model driver failed: rc=%s %s" % (rm, merr[-500:]))
-        for o, c, m in zip(ops, cout, mout):
+        col = self.variant()
+        for idx, (o, c, m) in enumerate(zip(ops, cout, mout)):
+            self.ctx = lines[max(0, idx - 300):idx]
             mf = m.split("\t")
+            if col == 1 and len(mf) == 3:
+                mf = [mf[1], mf[1], "1"]         # implementation follows the single-literal rule
             self.evals += 1
             self.ops_hist[o.op] = self.ops_hist.get(o.op, 0) + 1
             self.maxsize = max(self.maxsize, len(o.line))
@@ -635,7 +649,10 @@ class Campaign:
         rm, mout, _ = run_lines(model(), [o.line], timeout=60)
         c = cout[0] if cout else "crash-exit"
         m = mout[0] if mout else "model-failed"
-        return c, m.split("\t")
+        mf = m.split("\t")
+        if self.variant() == 1 and len(mf) == 3:
+            mf = [mf[1], mf[1], "1"]
+        return c, mf
 
     def report_property(self, o, c, mf, bad, tag):
         what, known = bad
@@ -655,8 +672,16 @@ class Campaign:
             return
         small = shrink(o, lambda q: self._unknown_bad(q))
         c2, mf2 = self.one(small)
-        b2 = oracle(small, c2, mf2, self.tts) or bad
+        b2 = oracle(small, c2, mf2, self.tts)
         self.reported += 1
+        if b2 is None or b2[1]:
+            # does not fail when run alone: the failure depends on what the process did before
+            # (storage damage by an earlier operation); keep the preceding operations in the replay
+            self.rep.violation(bad[0] + " [only after the preceding operations of the same process]",
+                               {"part": PART, "lines": list(getattr(self, "ctx", [])) + [o.line], "impl": c,
+                                "model_current": mf[0], "tag": tag, "state_dependent": True},
+                               key="dnf:" + o.line)
+            return
         self.rep.violation(b2[0], {"part": PART, "lines": [small.line], "original": o.line, "impl": c2,
                                    "model_current": mf2[0], "tag": tag},
                            key="dnf:" + small.line)
@@ -730,48 +755,74 @@ class Campaign:
         new = known
         sizes = [len(known)]
         nops = len(lvl0)
+        CH = 150000
         for lev in range(1, depth + 1):
-            ops = []
-            for x in new:
-                ops.append(Op("not", [x]))
             allv = old + new
             newset = set(new)
-            for x in allv:
-                for y in allv:
-                    if x in newset or y in newset:
-                        ops.append(Op("and", [x, y]))
-                        ops.append(Op("or", [x, y]))
-            if cap is not None and len(ops) > cap:
-                rnd = C.rng("dnf-exh-cap-%d-%d" % (natoms, lev))
-                ops = rnd.sample(ops, cap)
+            last = lev == depth
+            total = len(new) + 2 * (len(allv) ** 2 - len(old) ** 2)
+            keep = 1.0 if (cap is None or total <= cap) else cap / float(total)
+            if keep < 1.0:
                 self.capped = True
-            if lev == depth:
-                # last level: also the tests on every pair of values (cheap, no new values)
-                pairs = [(x, y) for x in allv for y in allv]
-                if cap_tests is not None and len(pairs) > cap_tests:
-                    pairs = C.rng("dnf-exh-pairs").sample(pairs, cap_tests)
-                    self.tests_sampled = True
-                for x, y in pairs:
-                    ops.append(Op("implies", [x, y]))
-                for x, y in pairs[::3]:
-                    ops.append(Op("equal", [x, y]))
-            nops += len(ops)
-            res = []
-            CH = 200000
-            for i in range(0, len(ops), CH):
-                res += self.batch(ops[i:i + CH], "exh%d-l%d" % (natoms, lev))
+            rnd = C.rng("dnf-exh-cap-%d-%d" % (natoms, lev))
+
+            def specs():
+                for x in new:
+                    yield ("not", x, None)
+                for x in allv:
+                    xin = x in newset
+                    for y in allv:
+                        if xin or y in newset:
+                            if keep >= 1.0 or rnd.random() < keep:
+                                yield ("and", x, y)
+                            if keep >= 1.0 or rnd.random() < keep:
+                                yield ("or", x, y)
+                if last:
+                    # last level: also the tests on pairs of values (no new values)
+                    npairs = len(allv) ** 2
+                    kp = 1.0 if (cap_tests is None or npairs <= cap_tests) else cap_tests / float(npairs)
+                    if kp < 1.0:
+                        self.tests_sampled = True
+                    r2 = C.rng("dnf-exh-pairs-%d" % natoms)
+                    k = 0
+                    for x in allv:
+                        for y in allv:
+                            if kp >= 1.0 or r2.random() < kp:
+                                yield ("implies", x, y)
+                                k += 1
+                                if k % 3 == 0:
+                                    yield ("equal", x, y)
+
+            nxt = []
+            hashes = set()
+            chunk = []
+
+            def flush():
+                res = self.batch(chunk, "exh%d-l%d" % (natoms, lev))
+                for o, r in zip(chunk, res):
+                    if o.op in ("and", "or", "not") and not r.startswith("crash"):
+                        if last:
+                            hashes.add(hash(r))
+                            continue
+                        try:
+                            d = parse(r)
+                        except ValueError:
+                            continue
+                        if d not in seen and wf_dnf(d):
+                            seen.add(d)
+                            nxt.append(d)
+                del chunk[:]
+
+            for (name, x, y) in specs():
+                chunk.append(Op(name, [x] if y is None else [x, y]))
+                nops += 1
+                if len(chunk) >= CH:
+                    flush()
+            if chunk:
+                flush()
             old = allv
-            new = []
-            for o, r in zip(ops, res):
-                if o.op in ("and", "or", "not") and not r.startswith("crash"):
-                    try:
-                        d = parse(r)
-                    except ValueError:
-                        continue
-                    if d not in seen and wf_dnf(d):
-                        seen.add(d)
-                        new.append(d)
-            sizes.append(len(seen))
+            new = nxt
+            sizes.append(len(seen) if not last else len(hashes | {hash(fmt(d)) for d in seen}))
         return {"atoms": natoms, "depth": depth, "operations": nops, "distinct_values_per_level": sizes,
                 "seconds": round(time.time() - t0, 1), "constructor_ops_sampled": bool(getattr(self, "capped", False)),
                 "implies_equal_pairs_sampled": bool(getattr(self, "tests_sampled", False))}
@@ -838,7 +889,7 @@ def campaign(rep, tier, state):
     else:
         exh.append(cp.exhaustive(2, 3))
         exh.append(cp.exhaustive(3, 3))
-        exh.append(cp.exhaustive(4, 3, cap=int(os.environ.get("VERIF_DNF_CAP", "3000000")), cap_tests=300000))
+        exh.append(cp.exhaustive(4, 3, cap=int(os.environ.get("VERIF_DNF_CAP", "5000000")), cap_tests=200000))
         nform, nrand, nmal = 60000, 150000, 30000
     forms = []
     for i in range(nform):
@@ -855,6 +906,9 @@ def campaign(rep, tier, state):
         "input_distribution": {"operations": cp.ops_hist, "random_formulas": nform, "random_ops": nrand,
                                "malformed_ops": nmal, "longest_line": cp.maxsize},
         "known_finding_hits": {KEY_KNOWN: cp.known_hits},
+        "cancel_rule_of_the_implementation": ("any number of literals (as in /repo HEAD; full equivalences refuted, "
+                                              "partial theorems apply)" if cp.variant() == 0 else
+                                              "single literal (the ..._single_rule theorems are the property)"),
         "other_failures": cp.reported,
         "samples": cp.samples, "seconds": round(time.time() - t0, 1)})
     rep.add_cov(evaluations=cp.evals, traces_validated_against_impl=cp.evals)
@@ -870,7 +924,13 @@ def run_part(rep, tier):
         except C.BuildError as e:
             rep.notes.append("dnf searcher could not build: %s" % str(e)[:200])
 
-    C.proof_stage(rep, PID, TARGETS, PROPS, searcher)
+    prev_axioms = dict(rep.cov.get("axioms") or {})      # proof_stage replaces these keys: keep the other parts'
+    ok = C.proof_stage(rep, PID, TARGETS, PROPS, searcher)
+    merged = dict(prev_axioms)
+    merged.update(rep.cov.get("axioms") or {})
+    rep.cov["axioms"] = merged
+    rep.add_cov(**{PART + "_proof": {"ok": bool(ok), "properties_file": "coq/" + PROPS,
+                                     "checker_cmd": "make -C coq %s && coqc -Q . AV %s" % (" ".join(TARGETS), PROPS)}})
     campaign(rep, tier, state)
     rep.assume(
         "dnf: extraction of coq/Dnf/Model.v with ExtrOcamlBasic only (Z, nat, list stay inductive types); "
